@@ -72,6 +72,28 @@ class EntryOfLark(Entry):
 		"""
 		return self.__entry is None
 
+	def __last_token_end(self, tree: lark.Tree) -> tuple[int, int] | None:
+		"""配下のツリー/トークンのうち、位置情報を持つ最後の要素の終了位置を取得
+
+		Args:
+			tree: ツリー
+		Returns:
+			終了位置(行/列)。存在しない場合はNone
+		"""
+		for child in reversed(tree.children):
+			if type(child) is lark.Tree:
+				meta = child.meta
+				if meta is not None and not meta.empty and meta.end_line is not None and meta.end_column is not None:
+					return (meta.end_line, meta.end_column)
+
+				end = self.__last_token_end(child)
+				if end:
+					return end
+			elif type(child) is lark.Token and child.end_line and child.end_column:
+				return (child.end_line, child.end_column)
+
+		return None
+
 	@property
 	@override
 	def source_map(self) -> SourceMap:
@@ -90,6 +112,11 @@ class EntryOfLark(Entry):
 				self.__entry.meta.end_line,
 				self.__entry.meta.end_column,
 			)
+			if source_map[2] is None or source_map[3] is None:
+				# XXX 末尾が位置情報を持たないトークン(EOFで生成されるDEDENT)の場合、終了位置は位置情報を持つ最後のトークンから取得
+				end = self.__last_token_end(self.__entry)
+				return {'begin': (source_map[0], source_map[1]), 'end': end if end else (source_map[0], source_map[1])}
+
 			return {'begin': (source_map[0], source_map[1]), 'end': (source_map[2], source_map[3])}
 		elif type(self.__entry) is lark.Token and self.__entry.line and self.__entry.column and self.__entry.end_line and self.__entry.end_column:
 			source_map = (
